@@ -34,12 +34,17 @@ FewKeys == { One, FromNat(3), Sub(N, One), Mod(FromBytesBE(Rnd32(1)), N) }
 LenPool == IF EnvNat("VERIF_THOROUGH") = 1 THEN 0..300 \cup { 1000, 1001, 4096, 65537, 100000 }
            ELSE { 0, 1, 31, 32, 33, 55, 56, 57, 63, 64, 65, 119, 120, 127, 128, 129, 255, 256, 299, 300, 301, 1000, 1001 }
 AuxPool == << << >>, Zeros(32), Rnd32(4), Rep(255, 32) >>
+\* auxiliary randomness that is NOT all-zero but folds to zero under a sloppy zero test (byte sum = 0 mod 256, XOR of all bytes = 0,
+\* first / last word zero), and single set bits at both ends: must be hashed like any other value
+AuxPatterns == << Rep(8, 32), Rep(64, 32), Rep(128, 32), << 128, 128 >> \o Zeros(30), Zeros(30) \o << 255, 1 >>, << 1 >> \o Zeros(31), Zeros(31) \o << 1 >>,
+                 Zeros(15) \o << 1 >> \o Zeros(16), Zeros(8) \o Rep(255, 24), Rep(255, 24) \o Zeros(8), Zeros(31) \o << 128 >>, << 128 >> \o Zeros(31) >>
 
 Cases ==
        { << "sign32", d, a >> : d \in KeyPool, a \in 1..4 }
   \cup { << "signlen", d, len, a, mode >> : d \in FewKeys, len \in LenPool, a \in 1..3, mode \in {1, 2, 4} }
   \cup { << "signlen", d, len, a, 5 >> : d \in FewKeys, len \in { 0, 32, 33, 127, 128, 129, 300 }, a \in 1..3 }
   \cup { << "noncefn", d, len, a, al >> : d \in FewKeys, len \in { 0, 32, 64, 128, 200 }, a \in 1..3, al \in 0..2 }
+  \cup { << "auxpat", d, p, how >> : d \in { FromNat(3), Mod(FromBytesBE(Rnd32(1)), N) }, p \in 1..12, how \in 0..2 }
   \cup { << "signnonce", d, k >> : d \in FewKeys, k \in { Zero, One, N, Add(N, One), Sub(N, One), Max256, FromBytesBE(Rnd32(5)) } }
   \cup { << "signnonce", d, << >> >> : d \in FewKeys }
   \cup { << "vlen", d, len >> : d \in FewKeys, len \in LenPool }
@@ -97,6 +102,9 @@ Expand(c) ==
          LET base == [ key |-> NBytes(c[2]), pk |-> X32(PMulG(IF IsZero(c[2]) THEN One ELSE c[2])), msg |-> Msg(c[3]) ]
              b2 == IF c[4] = 1 THEN base ELSE base @@ [ aux |-> AuxPool[c[4]] ]
          IN  [ e |-> "SchnorrNonceFn", in |-> IF c[5] = 0 THEN b2 ELSE b2 @@ [ algo |-> IF c[5] = 1 THEN AlgoBip340 ELSE << 77, 121, 65, 108, 103, 111 >> ] ]
+    [] c[1] = "auxpat" ->    \* how = 0: sign32, 1: sign_custom with the exported nonce function, 2: the exported nonce function called directly
+         IF c[4] = 2 THEN [ e |-> "SchnorrNonceFn", in |-> [ key |-> NBytes(c[2]), pk |-> X32(PMulG(c[2])), msg |-> Msg(32), aux |-> AuxPatterns[c[3]], algo |-> AlgoBip340 ] ]
+         ELSE [ e |-> "SchnorrSign", in |-> [ key |-> NBytes(c[2]), msg |-> Msg(32), mode |-> IF c[4] = 0 THEN 0 ELSE 4, aux |-> AuxPatterns[c[3]] ] ]
     [] c[1] = "signnonce" -> [ e |-> "SchnorrSign", in |-> IF c[3] = << >> THEN [ key |-> NBytes(c[2]), msg |-> Msg(40), mode |-> 3 ]
                                                              ELSE [ key |-> NBytes(c[2]), msg |-> Msg(40), mode |-> 3, nonce |-> NBytes(c[3]) ] ]
     [] c[1] = "vlen" -> LET m == Msg(c[3])  sg == Sign(NBytes(c[2]), m, Rnd32(9)) IN SV(sg[2], m, X32(PMulG(c[2])))
